@@ -498,11 +498,28 @@ def timetable(ctx, P):
         raise AnalysisError("Schedule / Slotted / get_schedule_generator not found")
 
     def stores(ci, m, want):
+        # on every path: the values stored into self.<attr> (newly extracted helpers read through, their parameters spelled as the arguments); a parameter
+        # that was stored unchanged into a field and that field are the same value (`self.slots = slots ... slots[-1]`)
+        import re as _re
         fn = ci.methods[m]
+        params = [a.arg for a in fn.args.args][1:]
+        w = Walker(P, P.view(ci.name), keep=lambda e: e.kind == "assign" and not e.d.get("local") and e.d["target"].startswith("self."), inline=rules.new_helper)
         got = {}
-        for x in ast.walk(fn):
-            if isinstance(x, ast.Assign) and len(x.targets) == 1 and isinstance(x.targets[0], ast.Attribute) and unparse(x.targets[0].value) == "self":
-                got.setdefault(x.targets[0].attr, []).append(unparse(x.value).replace(" ", ""))
+        for st in w.paths_of(ci, fn):
+            if st.status == "raise":
+                continue
+            same = {}
+            vals_ = {}
+            for e in st.events:
+                a_ = e.d["target"][len("self."):]
+                v_ = e.d["value"].replace(" ", "")
+                if v_ in params and _re.fullmatch(r"\w+", a_):
+                    same[v_] = "self." + a_
+                vals_.setdefault(a_, []).append(v_)
+            for a_, vs in vals_.items():
+                vs = [_re.sub(r"(?<![\w.])(%s)\b" % "|".join(map(_re.escape, same)), lambda m_: same[m_.group(1)], v_) if same and v_ not in same else v_ for v_ in vs]
+                if got.setdefault(a_, vs) != vs:
+                    got[a_] = got[a_] + ["/"] + vs          # paths disagree
         for attr, val in want.items():
             ob.ok("%s.%s:%s" % (ci.name, m, attr), "%s.%s: self.%s = %s" % (ci.name, m, attr, got.get(attr)))
             if got.get(attr) != [val]:
@@ -551,6 +568,26 @@ def timetable(ctx, P):
                     okk, why = False, "the index must start at 0"
     if not okk and not loops_:
         # the same sequence written as `for i in count(): date = f(i); yield date, values[(i + 1) % n]`
+        # (temporaries of the loop body that name a piece of the formula -- `position = i % n` -- are read through first)
+        cnt_ = {}
+        for x in ast.walk(gen):
+            if isinstance(x, ast.Name) and isinstance(x.ctx, ast.Store):
+                cnt_[x.id] = cnt_.get(x.id, 0) + 1
+        fl_ = [x for x in ast.walk(gen) if isinstance(x, ast.For)]
+        tmp_ = {}
+        for lp_ in fl_[:1]:
+            for x in lp_.body:
+                if isinstance(x, ast.Assign) and len(x.targets) == 1 and isinstance(x.targets[0], ast.Name) and cnt_.get(x.targets[0].id) == 1 \
+                        and not any(isinstance(y, (ast.Call, ast.Yield)) for y in ast.walk(x.value)):
+                    tmp_[x.targets[0].id] = x.value
+        if tmp_ and fl_:
+            keep_ = {unparse(y.value.elts[0]) for y in ast.walk(gen) if isinstance(y, ast.Yield) and isinstance(y.value, ast.Tuple) and y.value.elts}
+            tmp_ = {k: v for k, v in tmp_.items() if k not in keep_}
+            gen = rules.clone(gen)
+            for _ in range(3):
+                gen = rules._Subst(tmp_).visit(gen)
+            gen = ast.fix_missing_locations(gen)
+            ys = [x for x in ast.walk(gen) if isinstance(x, ast.Yield)]
         floops = [x for x in ast.walk(gen) if isinstance(x, ast.For) and isinstance(x.iter, ast.Call) and call_name(x.iter) == "count"
                   and (not x.iter.args or unparse(x.iter.args[0]) == "0") and len(x.iter.args) <= 1 and not x.iter.keywords and isinstance(x.target, ast.Name)]
         if len(floops) == 1 and len(ys) == 1 and isinstance(ys[0].value, ast.Tuple) and len(ys[0].value.elts) == 2:
